@@ -76,6 +76,17 @@ func apiCheck(self, prop, mode string) int {
 		}
 	})
 	fmt.Printf("%s %s: %d cases enumerated\n", prop, mode, idx+1)
+	if prop == "C16" {
+		// histories whose option lists share storage (no Redefine steps): in-process too
+		size := 4
+		if mode == "thorough" {
+			size = 5
+		}
+		CaseTiers["alias-C16"].Run(Step{Tier: "alias-C16", Size: size}, func(int) bool { return true }, res.Stats, func(r Replay) {
+			res.Findings = append(res.Findings, r)
+		})
+		res.Samples = append(res.Samples, caseSamples...)
+	}
 	return Conclude(prop, mode, res, nil, t0, "exhaustive enumeration of API cases (signatures / value lists / option lists / result shapes), each executed on the real library under sorted and reversed map order against a reference computed from the case description; transitions = executions + choice points")
 }
 
